@@ -221,10 +221,6 @@ theorem tracedAt_trimRight (env : Env) : TracedAt trimRightM env [.trimRight] (.
 
 theorem traced_trimRight : Traced trimRightM := fun env => ⟨_, _, tracedAt_trimRight env⟩
 
-/-- the operations of `trimWriter.WriteVerbatim(b)` in terms of the other methods: an empty `Write`
-    (drops a pending right trim, flushes what was pending), the `Write` of `b`, a `Flush` -/
-def verbatimOps (b : Bytes) : List WOp := [.write [], .write b, .flush]
-
 /-- one verbatim write on a fault-free writer: the text pending goes out unchanged, then the bytes
     written, unchanged, whatever the trim flag was; nothing stays pending and the flag is clear -/
 theorem writeVerbatim_runPure (c : Bytes) (env : Env) (buf : Bytes) (t : Bool) :
@@ -425,7 +421,7 @@ theorem traced_renderNode (c : RCtx) (hc : IncQuiet c) : ∀ n : Node, Traced (r
     refine traced_wrapFailAt _ _ (traced_bind (traced_getVar _) (fun lv => ?_))
     split
     · exact traced_fail _
-    · exact traced_bind (traced_setVar _ _) (fun _ => traced_bind (traced_write _) (fun _ => traced_pure _))
+    · exact traced_bind (traced_setVar _ _) (fun _ => traced_bind (traced_writeVerbatim _) (fun _ => traced_pure _))
   | .brk line => by unfold renderNode; exact traced_pure _
   | .cont line => by unfold renderNode; exact traced_pure _
   | .incl line args => by
@@ -437,7 +433,7 @@ theorem traced_renderNode (c : RCtx) (hc : IncQuiet c) : ∀ n : Node, Traced (r
       refine traced_bind (traced_inc c hc _ _ _) (fun r => ?_)
       obtain ⟨st, out⟩ := r
       cases st with
-      | done => exact traced_bind (traced_write _) (fun _ => traced_pure _)
+      | done => exact traced_bind (traced_writeVerbatim _) (fun _ => traced_pure _)
       | brk e => exact traced_pure _
       | cont e => exact traced_pure _
     · exact traced_fail _
